@@ -7,6 +7,8 @@
 set -u
 id=$1; l=$2
 src=${BENROOT:-/tmp/ben}-$id/BENIGN/$l
+# BENPROP: the property when the directory name is not a bare property id (e.g. ben5-C04t)
+id=${BENPROP:-$id}
 export GOFLAGS=-mod=mod GOPROXY=off
 [ -f "$src/patch.diff" ] || { echo "BENIGN $id-$l NO-PATCH"; exit 2; }
 wt=/tmp/wt-ben-$id-${BENTAG:-}$l
